@@ -1,0 +1,34 @@
+//go:build verif
+
+package web
+
+// Contracts for govc (contract-based deductive verification). Comment-only: this file
+// contributes no declarations and is compiled only with -tags verif.
+
+// within(root, p): p is root itself or lies below root (root followed by a separator).
+//@ spec func within(root string, p string) bool = p == root || libcall(strings.HasPrefix, p, root + "/")
+
+//@ func isSubPath
+//@   modifies nothing
+//@   functional
+//@   ensures result == within(parent, child)
+
+// Every path handed to the file system by the static server is the output of EvalSymlinks
+// (resolved) and inside the resolved root, on every control-flow path reaching the call.
+//@ func (*StaticFileServer).ServeHTTP
+//@   requires s != nil && resolved(s.absRoot)
+//@   callpre os.Open resolved(arg0) && within(s.absRoot, arg0)
+//@   callpre os.ReadFile resolved(arg0) && within(s.absRoot, arg0)
+//@   callpre http.ServeFile resolved(arg2) && within(s.absRoot, arg2)
+//@   callpre (*web.StaticFileServer).serveDirectoryListing resolved(arg3) && within(s.absRoot, arg3)
+
+//@ func (*StaticFileServer).serveDirectoryListing
+//@   requires s != nil && resolved(s.absRoot) && resolved(dirPath) && within(s.absRoot, dirPath)
+//@   callpre os.ReadDir arg0 == dirPath
+//@   callpre os.Open false
+//@   callpre os.ReadFile false
+
+//@ func (*ResponseHelper).SendFile
+//@   callpre os.Open resolved(arg0) && within(absRoot, arg0)
+//@   callpre os.ReadFile false
+//@   callpre http.ServeFile false
